@@ -400,6 +400,8 @@ def conclude(prop, tier, seed, mod, results, errors, wall, replay):
     print('   monitor_evals=%s' % json.dumps(dict(monitor_evals), sort_keys=True))
     for name, rep in anchor_reach.items():
         print('   reach %-70s calls=%-9d lines=%d/%d' % (name, rep['calls'], rep['lines_executed'], rep['lines_total']))
+    if viol_count:
+        print('   violation mechanisms observed: %s' % json.dumps(dict(viol_count), sort_keys=True))
     for k, n in sorted(known_hit.items()):
         print('KNOWN-FINDING: property=%s %s [%s] (observed %d times this run)' % (prop, known_keys[k]['what'], k, n))
     status = 0
